@@ -53,7 +53,7 @@ var FaultKinds = []string{"husb-missing", "wife-missing", "chil-missing", "husb-
 	"chil-empty", "no-name", "name-without-surname", "name-empty", "own-parent", "own-spouse", "own-grandparent", "duplicate-individual",
 	"duplicate-family", "individual-and-family-share-pointer", "family-without-members", "source-without-title", "famc-missing", "fams-missing",
 	"date-garbage", "date-empty", "date-partial", "date-reversed-range", "date-far-future", "surname-digit", "surname-symbol", "surname-multibyte",
-	"only-faulty-people"}
+	"surname-only-punctuation", "only-faulty-people"}
 
 type indi struct {
 	ptr, given, sur  string
@@ -171,6 +171,9 @@ func Materialise(base int, faults []string) string {
 			people[1].sur = "'t Hooft"
 		case "surname-multibyte":
 			people[2].sur, people[3].sur = "Öztürk", "李"
+		case "surname-only-punctuation":
+			people[len(people)-1].sur = "?"
+			people[0].given = "(?)"
 		case "only-faulty-people":
 			// nobody with an ordinary surname is left: every index letter comes from a faulty record
 			for _, p := range people {
